@@ -66,12 +66,14 @@ def register(R):
             ("remainder", f"result[1] == T[{i} + len({sep}):]", "C01 C02"),
             ("remainder-is-a-view-of-the-received-region", f"view_of(result[1], buffer) and view_lo(result[1]) == {i} + len({sep}) and view_hi(result[1]) == len(T)", "C01 C10"),
             ("fits", "len(T) <= self.__limit", "C07"),
+            ("remainder-fits-when-reinjected", "len(result[1]) < len(buffer)", "C01 C10"),
         ],
         raises={
             "LimitOverrunError": [
                 ("not-found", f"{i} == -1", "C02"),
                 ("buffer-full", "len(T) >= self.__limit - 1", "C07"),
                 ("remainder", f"exc.remaining_data == Resync(T, len(T) + 1 - len({sep}), {sep})", "C02"),
+                ("remainder-fits-when-reinjected", "len(exc.remaining_data) < len(buffer)", "C02 C10"),
             ],
             "IncrementalDeserializeError": [
                 ("frame-found", f"{i} >= 0", "C02"),
